@@ -1,5 +1,5 @@
 (* C11 - AST traversal.  Theorems only; proofs in Lang/VisitProps.v, Gen/TableChecks.v. *)
-From GV Require Import Base.Prelude Lang.Visit Lang.VisitProps Gen.Tables Gen.TableChecks.
+From GV Require Import Base.Prelude Lang.Visit Lang.VisitProps Lang.VisitParallelProps Gen.Tables Gen.TableChecks.
 
 (* A visitor that never returns REMOVE or a replacement (whatever its state and whatever it
    skips or breaks) never produces an edit: the traversal answers "keep", i.e. the caller
@@ -22,6 +22,23 @@ Print Assumptions C11_enter_leave_order.
 Theorem C11_keys_complete : keys_missing_count = 0 /\ keys_unknown_count = 0.
 Proof. exact keys_complete. Qed.
 Print Assumptions C11_keys_complete.
+
+(* ParallelVisitor: every non-editing visitor sees in the parallel run exactly the call sequence it
+   sees alone, including after SKIP and BREAK of itself and of the others (distinct node ids: the
+   implementation identifies the skipped node by object identity). *)
+Theorem C11_parallel_projection : forall fuel root scs i sc,
+  Forall script_ne scs -> NoDup (ids_tree root) -> (depth_tree root <= fuel)%nat ->
+  nth_error scs i = Some sc ->
+  projsub i (snd (visit_parallel fuel root scs)) = proj_log (snd (visit_scripted fuel root sc)).
+Proof. exact parallel_projection. Qed.
+Print Assumptions C11_parallel_projection.
+
+(* the call sequence of a single scripted non-editing visitor is a structural function of the
+   tree: SKIP = no calls below the node and no leave call, BREAK = nothing afterwards *)
+Theorem C11_solo_calls : forall sc, script_ne sc -> forall fuel root, (depth_tree root <= fuel)%nat ->
+  proj_log (snd (visit_scripted fuel root sc)) = fst (solo_tree sc root).
+Proof. exact solo_log. Qed.
+Print Assumptions C11_solo_calls.
 
 (* non-vacuity: a root with an absent slot, a single child and an array of two *)
 Example C11_example :
